@@ -63,7 +63,11 @@ RULE = ('one case = (installed entries of the private PATH, cmd, sameas, formula
         'listed combinations; all pairs and a full product in the thorough tier) x boundary '
         'formulas, plus every subset of installed solvers for cmd=None (size<=3 or >=10 quick, all '
         '2^11 thorough), every non-runnable kind of PATH entry, every (cmd,sameas) pair, bad '
-        'sameas values and non-CNF arguments.  Cases are distinct by construction; a case is '
+        'sameas values and non-CNF arguments; two calls of one process overlapping: for every '
+        'pair of conventions x 5 formula pairs, every placement of a complete second call at each '
+        'seam point of the first (before a child is created, after its output was collected) '
+        'under a controlled scheduler, compared with the two calls run one after the other.  '
+        'Cases are distinct by construction; a case is '
         'non-trivial when a stand-in solver process really answered or a documented refusal is '
         'the expected outcome')
 ASSUMPTIONS = [
@@ -94,6 +98,7 @@ VACUITY = {
     'standin_solver_runs': 1000,
     'tempdir_comparisons': 1000,
     'fault_injections': 100,
+    'overlap_schedules': 100,
 }
 
 ENGINE = 'faults+tt (scripted stand-in solver in a private PATH/TMPDIR)'
@@ -107,7 +112,10 @@ LEVEL_TEXT = ('Every supported solver name x every reply shape x boundary formul
               'working directories before/after each call.')
 LEVEL_NOTE = ('Trusted: the stand-in solver (cross-checked per case against engine.tt) and the '
               'list of reply shapes.  Not covered: behaviour of the real solver binaries, formulas '
-              'with more than 11 variables, concurrent use.')
+              'with more than 11 variables.  Two overlapping calls of one process are explored '
+              'only at the granularity of the process-spawning seam (every placement of a complete '
+              'second call at a seam point of the first: one preemption); finer interleavings of '
+              'real threads are not.')
 
 UNKNOWN = 'c20-mysolver'          # a command that is not a supported solver
 CONVS = ('stdin_stdout', 'filein_stdout', 'filein_fileout')
@@ -1441,7 +1449,144 @@ def run_repeat(case, env, names, conv, R):
     return vs
 
 
+class SeamScheduler:
+    """Controlled scheduler at the process-spawning seam of the bridge.  Call A
+    runs on the main thread; at its k-th seam point (just before a child
+    process is created, or just after the output of one was collected) call B
+    -- another thread of the same process in real life -- is scheduled and
+    runs to completion; then A resumes.  point = None only records the seam
+    points of A.  Nested seam points (those of B) are not scheduling points:
+    one preemption of A, B never preempted."""
+
+    def __init__(self, point, other):
+        self.point = point
+        self.other = other
+        self.events = []
+        self.other_out = None
+        self._busy = False
+
+    def _at(self, label):
+        if self._busy:
+            return
+        idx = len(self.events)
+        self.events.append(label)
+        if self.point is not None and idx == self.point:
+            self._busy = True
+            try:
+                self.other_out = call(self.other)
+            finally:
+                self._busy = False
+
+    def __enter__(self):
+        import subprocess
+        self._real = subprocess.Popen
+        me = self
+
+        class Popen(self._real):
+            def __init__(p_self, *a, **kw):
+                args = kw.get('args', a[0] if a else None)
+                probe = bool(args) and list(args)[-1:] == ['--help']
+                p_self._c20_kind = 'probe' if probe else 'run'
+                me._at('before-spawn:' + p_self._c20_kind)
+                me._real.__init__(p_self, *a, **kw)
+
+            def communicate(p_self, *a, **kw):
+                r = me._real.communicate(p_self, *a, **kw)
+                me._at('after-collect:' + p_self._c20_kind)
+                return r
+        subprocess.Popen = Popen
+        return self
+
+    def __exit__(self, *a):
+        import subprocess
+        subprocess.Popen = self._real
+
+
+def run_overlap(case, env, names, conv, R):
+    """Two calls of solve() in one process, overlapping: every placement of a
+    complete call B inside call A at the seam points of A (one preemption).
+    Oracle: both calls return what they return when run one after the other
+    (which the ordinary cases judge), and the private directories are as
+    before."""
+    from cnfgen.utils.solver import sat_solve
+    env.install(expand_inst('ALL', names))
+    env.set_tmp('plain')
+    os.environ['C20_SHAPE'] = ''
+    os.environ['C20_STRICT'] = ''
+    ov = case['overlap']
+    XA = build_formula(case['F'])
+    XB = build_formula(ov['F'])
+    entry = ov.get('entry', 'solve')
+
+    def fa():
+        return XA.solve(cmd=case['cmd']) if entry == 'solve' else XA.is_satisfiable(cmd=case['cmd'])
+
+    def fb():
+        return XB.solve(cmd=ov['cmd']) if ov.get('entryB', 'solve') == 'solve' \
+            else XB.is_satisfiable(cmd=ov['cmd'])
+
+    def quiet(fn, sched=None):
+        sys.stderr = io.StringIO()
+        try:
+            if sched is None:
+                return call(fn)
+            with sched:
+                return call(fn)
+        finally:
+            sys.stderr = env._saved_stderr
+
+    env.read_log()
+    seqA = quiet(fa)
+    seqB = quiet(fb)
+    rec = SeamScheduler(None, fb)
+    again = quiet(fa, rec)
+    env.read_log()
+    if again != seqA:
+        raise RuntimeError('call A is not reproducible: %r / %r' % (seqA, again))
+    vs = []
+    R.stats['overlap_families'] += 1
+    for k, label in enumerate(rec.events):
+        before = env.snapshot()
+        sch = SeamScheduler(k, fb)
+        gotA = quiet(fa, sch)
+        gotB = sch.other_out
+        after = env.snapshot()
+        env.read_log()
+        if sch.events[:k + 1] != rec.events[:k + 1]:
+            raise RuntimeError('overlapped run diverged before the scheduling point: %r' % (case,))
+        R.stats['overlap_schedules'] += 1
+        R.stats['api_calls'] += 2
+        R.stats['tempdir_comparisons'] += 1
+        R.outcomes['overlap:at:' + label] += 1
+        R.case(sample=case if k == 0 else None, nontrivial=True)
+        ca = conv.get(case['cmd'].split()[0], 'default') if case['cmd'] else 'default'
+        cb = conv.get(ov['cmd'].split()[0], 'default') if ov['cmd'] else 'default'
+        where = ('solve(cmd=%r) on %r, with a second call solve(cmd=%r) on %r of the same process '
+                 'running to completion at the point "%s" (#%d) of the first'
+                 % (case['cmd'], case['F'], ov['cmd'], ov['F'], label, k))
+        if gotA != seqA:
+            vs.append({'key': 'overlap:%s+%s:first-call:differs-from-sequential' % (ca, cb),
+                       'what': '%s: the first call %s; alone it %s'
+                               % (where, describe(gotA), describe(seqA)), 'case': dict(case)})
+        if gotB != seqB:
+            vs.append({'key': 'overlap:%s+%s:second-call:differs-from-sequential' % (ca, cb),
+                       'what': '%s: the second call %s; alone it %s'
+                               % (where, describe(gotB) if gotB else 'did not run', describe(seqB)),
+                       'case': dict(case)})
+        if after != before:
+            diff = sorted(set(p_ for p_ in after if after.get(p_) != before.get(p_)) |
+                          set(p_ for p_ in before if p_ not in after))
+            env.restore(before, after)
+            vs.append({'key': 'overlap:%s+%s:temporary-files' % (ca, cb),
+                       'what': '%s: files left / changed: %r' % (where, diff[:4]), 'case': dict(case)})
+        if vs:
+            break
+    return vs
+
+
 def run_case(case, env, names, conv, R=None):
+    if case.get('overlap'):
+        return run_overlap(case, env, names, conv, R if R is not None else _NullR())
     if case.get('repeat'):
         return run_repeat(case, env, names, conv, R if R is not None else _NullR())
     if case.get('faultfamily'):
@@ -1654,6 +1799,21 @@ def all_cases(tier, seed):
     c = mk('repeat', F_SAT, cmd=None, inst='ALL')
     c['repeat'] = True
     cases.append(c)
+
+    # C'''. two calls of one process overlapping at the process-spawning seam ------
+    for nmA in reps:
+        for nmB in reps:
+            for FA, FB in ((F_SAT, F_UNSAT), (F_UNSAT, F_SAT), (F_SAT, FBYNAME['mixed-unique']),
+                           (FBYNAME['unused'], F_SAT), (F_ZERO, F_UNSAT)):
+                c = mk('overlap', FA, cmd=nmA)
+                c['overlap'] = {'F': FB, 'cmd': nmB}
+                cases.append(c)
+        c = mk('overlap', F_SAT, cmd=None)
+        c['overlap'] = {'F': F_UNSAT, 'cmd': nmA}
+        cases.append(c)
+        c = mk('overlap', F_UNSAT, cmd=nmA)
+        c['overlap'] = {'F': F_SAT, 'cmd': nmA, 'entry': 'issat', 'entryB': 'issat'}
+        cases.append(c)
 
     # D. command lines -----------------------------------------------------------
     for nm in names:
